@@ -56,9 +56,9 @@ CHECKS = {
                 text='For each generated history every entropy call (instantiation and each reseed) is failed in turn (1-3 consecutive failures); in the build with the real util/entropy.c every entropy_read gets open failure, EOF, EIO, EINTR, short reads and close errors through interposed open/read/close. Fault-free exploration covers random and reseed-boundary histories with requests of 0..200000 bytes.',
                 note='Histories and entropy contents are sampled. After a failed call any state the call passed through is accepted (the statement does not say which). The RDRAND build is informative only.'),
     'C12': dict(level='exploration', ref='4/C12',
-                technique='runtime monitoring: reference models (byte vector with unknown-mask, FIFO, number table, live set) compared after every operation through the public calls; tracking allocator (--wrap malloc family) supplies capacities, exported block sizes, real allocations behind pool calls and the blocks alive after all atexit handlers; ASan+UBSan',
-                text='4,900 (quick) / 194,000 (thorough) histories of 200-6000 operations sized to cross grow/keep/shrink, move-to-front and cache-doubling boundaries; capacity oracle size <= cap <= 4*size+3 (integer form of the code\'s own test), cap == size after truncate; overflow arguments; typed ELASTICARRAY_DECL layer; pool exit check in a separate process per history.',
-                note='Random sampling. Allocation refusals are C14. The +3 in the capacity bound is integer rounding (a 7-byte buffer may hold 1 byte).'),
+                technique='runtime monitoring: reference models (byte vector with unknown-mask, FIFO, number table, live set) compared after every operation through the public calls; tracking allocator (--wrap malloc family) supplies capacities, exported block sizes, real allocations behind pool calls, the blocks alive after all atexit handlers, and a one-shot failpoint armed at random operations of the array/typed/queue/map histories (refused allocation => -1/NULL with the container exactly as the model had it, or full effect for shrink/delete which cannot fail); ASan+UBSan',
+                text='4,900 (quick) / 194,000 (thorough) histories of 200-6000 operations sized to cross grow/keep/shrink, move-to-front and cache-doubling boundaries; capacity oracle size <= cap <= 4*size+3 (integer form of the code\'s own test), cap == size after a successful truncate, only size <= cap after a shrink whose realloc was refused; overflow arguments; typed ELASTICARRAY_DECL layer; per operation a 6-10% (init 30%) chance that the next/second-next allocation is refused (a quick run sees ~58,000 refused operations, ~27,000 "failed and unchanged" events); pool exit check in a separate process per history.',
+                note='Random sampling. Allocation refusals are sampled (one refused attempt per operation, never in pool histories); exhaustive enumeration of failure points for fixed scenarios stays with C14. The +3 in the capacity bound is integer rounding (a 7-byte buffer may hold 1 byte).'),
     'C13': dict(level='exploration', ref='4/C13',
                 technique='runtime monitoring: live-element model; positions recorded only by the record-cookie callback; after every operation the peek hook walks the heap (membership, handle == position, parent <= child, getmin == model minimum); final drain sorted and equal to the model; timer queue judged through its public interface with old cookies; ASan+UBSan',
                 text='3,000 (quick) / 243,000 (thorough) histories; heaps of 0..3400 elements, create from 0..3000, four key ranges incl. many duplicates; five time modes with equal and distinct times.',
@@ -80,9 +80,9 @@ CHECKS = {
                 text='Every length 0..120, every byte value, every offset 0..15, every Unix path length 1..107, plus seeded random cases: 0.5M evaluations quick, 9M thorough.',
                 note='Only numeric address strings are resolved. Non-canonical base-64 pad bits and trailing characters beyond 2*len hex digits may go either way.'),
     'C18': dict(level='exploration', ref='4/C18',
-                technique='runtime monitoring under ASan+UBSan: six option tables compiled through the real GETOPT_* macros; the sequence of (label, optarg) and the final optind compared with a Python model written from the getopt.h comment; every parse follows optreset after another, possibly abandoned, parse; a sample repeated in fresh processes',
-                text='Exhaustive over per-table alphabets of 13-49 tokens for length <= 3 (full) and 4 (reduced) in quick, <= 4 (full) and 5 (reduced) in thorough; random vectors to length 8: 0.9M parses quick, 10.8M thorough.',
-                note='optarg compared only at GETOPT_OPTARG labels; stderr warnings not compared; where the header is silent the model follows standard getopt.'),
+                technique='runtime monitoring under ASan+UBSan: fourteen option tables compiled through the real GETOPT_* macros (incl. compact layouts with labels on the first / last / GETOPT_SWITCH line, fall-through into the default block, a 272-line table, a zero-slot and a one-slot table); the sequence of (label or returned option string, optarg, optind), the final optind and the number of warning lines compared with a Python model written from the getopt.h comment; every parse follows optreset after another, possibly abandoned, parse whose argv was freed; a sample repeated in fresh processes',
+                text='Exhaustive over per-table alphabets of 13-49 tokens for length <= 3 (full) and 4 (reduced) in quick, <= 4 (full) and 5 (reduced) in thorough; random vectors to length 8: 1.3M parses quick, 18M thorough.',
+                note='optarg compared only where a program can observe it; warnings are counted, their text is not compared; where the header is silent the model follows standard getopt. A GETOPT_OPT label falling through into a GETOPT_OPTARG label is outside the documented usage and not generated.'),
     'C19': dict(level='exploration', ref='4/C19',
                 technique='runtime monitoring under ASan+UBSan with time() interposed: all four aws_sign_* functions; signature, credential scope, content hash and query string re-derived from the returned timestamp by an independent Python SigV4 that reproduces the published AWS worked examples',
                 text='48k signatures quick, 1.9M thorough over ids/regions/buckets/services/ops/paths of 0..200 unreserved characters, printable-ASCII secrets, bodies absent/empty/1 B..100 KiB, the int expiry range, clock instants 1970..2100; over half the cases use a clock that ticks on every call at a day, leap-day or year boundary.',
